@@ -419,3 +419,24 @@ func RunScript(bin []string, script string, timeout time.Duration) (string, time
 	}
 	return "error", d
 }
+
+func runWithTimeout(argv []string, timeout time.Duration) (string, error) {
+	cmd := exec.Command(argv[0], argv[1:]...)
+	done := make(chan struct{})
+	var out []byte
+	var err error
+	go func() {
+		out, err = cmd.CombinedOutput()
+		close(done)
+	}()
+	select {
+	case <-done:
+		return string(out), err
+	case <-time.After(timeout):
+		if cmd.Process != nil {
+			cmd.Process.Kill()
+		}
+		<-done
+		return "", fmt.Errorf("timeout")
+	}
+}
